@@ -884,7 +884,8 @@ func JudgeCluster(sc *ClusterScenario, tr *Trace) ([]pbt.Violation, ClusterStats
 					if refired {
 						continue
 					}
-					end := r.Add(rt.GroupInterval + time.Duration(sc.N-1)*pt + deliverySlack)
+					// (a group re-created by a re-send waits group_wait before its first flush)
+					end := r.Add(maxDur(rt.GroupWait, rt.GroupInterval) + time.Duration(sc.N-1)*pt + deliverySlack)
 					if end.After(tr.End) || !upThroughout(i, vs[0].From.Add(-time.Nanosecond), end) {
 						continue
 					}
